@@ -28,14 +28,14 @@ GOOD = {
              ("scalar", '"@U@"'), ("empty", '{}')],
     "yaml": [("tuple", '{a = 1, s = "@U@", l = [1, "x"], n = {e = NULL}}'), ("list", '[1, 2, "@U@"]'),
              ("scalar", '"@U@"'), ("empty", '{}')],
-    "yamlmulti": [("docs", '[{a = "@U@"}, {b = 2}]'), ("single", '{a = "@U@"}'), ("one", '[{z = "@U@", l = [1, 2, 3]}]')],
+    "yamlmulti": [("docs", '[{a = "@U@"}, {b = 2}]'), ("single", '{a = "@U@"}'), ("one", '[{z = "@U@", l = [1, 2, 3]}]'), ("empty_output", '[]')],
     "toml": [("tuple", '{a = 1, s = "@U@", t = {b = "x"}}'), ("list", '[1, "@U@"]'), ("nested", '{t = {u = {v = "@U@"}}, l = [1, 2]}')],
     "xml": [("doc", '{root = {name = "r", attrs = {a = "@U@"}, children = [{name = "c"}, {text = "hi"}]}}'),
             ("versioned", '{version = "1.1", root = {name = "top@U@", children = [{name = "k", attrs = {x = "1"}}]}}'),
             ("leaf", '{root = {name = "n@U@"}}')],
-    "env": [("tuple", '{A = "@U@", B = "x y", N = 1}'), ("quotes", '{Q = "it\'s @U@", T = true}'), ("scalar", '"@U@"')],
+    "env": [("tuple", '{A = "@U@", B = "x y", N = 1}'), ("quotes", '{Q = "it\'s @U@", T = true}'), ("scalar", '"@U@"'), ("empty_output", '{}')],
     "flags": [("tuple", '{a = 1, name = "@U@", l = [1, 2], flag = true}'), ("nested", '{out = {dir = "@U@"}, v = NULL}'),
-              ("short", '{n = "@U@"}')],
+              ("short", '{n = "@U@"}'), ("empty_output", '{}')],
     "exec": [("full", '{command = "echo", args = ["@U@", {b = "c"}], env = {X = "1"}}'), ("bare", '{command = "run-@U@"}'),
              ("args", '{command = "printf", args = ["%s", "@U@"]}')],
 }
@@ -56,6 +56,8 @@ BAD = {
              ("late_bad_arg", '{command = "echo", env = {X = "@U@"}, args = ["ok", 1.5, [1]]}'),
              ("late_constraint_arg", '{command = "echo", args = ["@U@", pr]}'), ("constraint_env", '{command = "echo@U@", env = {X = pr}}')],
 }
+# a writable directory on a file system other than the sandbox's (tmpfs): the process is free to stage files there
+OTHER_FS_TMP = next((d for d in ("/var/tmp", "/tmp") if os.path.isdir(d) and os.access(d, os.W_OK)), "/tmp")
 ENVDEP = {"json": '{tok = env.UCGSIM_TOK, n = 1}', "yaml": '{tok = env.UCGSIM_TOK, n = 1}', "toml": '{tok = env.UCGSIM_TOK}',
           "env": '{TOK = env.UCGSIM_TOK}', "flags": '{tok = env.UCGSIM_TOK}', "exec": '{command = "run", args = [env.UCGSIM_TOK]}',
           "xml": '{root = {name = "r", attrs = {tok = env.UCGSIM_TOK}}}', "yamlmulti": '[{tok = env.UCGSIM_TOK}]'}
@@ -63,7 +65,8 @@ SRC_NAMES = [("plain", "p.ucg"), ("dotted", "conf.prod.ucg"), ("subdir", "sub/x.
 FAULT_KINDS = ["enospc", "eisdir", "efbig"]
 PROBES = ["failed_conversion_over_existing_artifact", "failed_conversion_without_artifact", "streaming_converter_failed_late",
           "torn_first_byte", "torn_middle", "torn_last_byte", "success_after_failure", "two_outs", "error_after_out",
-          "foreign_preexisting", "built_from_other_cwd", "built_through_directory_walk", "built_through_dotslash", "source_is_symlink", "companion_built_first", "companion_failed_late", "source_untouched_between_builds", "out_inside_module_body", "companion_built_last"]
+          "foreign_preexisting", "built_from_other_cwd", "built_through_directory_walk", "built_through_dotslash", "source_is_symlink", "companion_built_first", "companion_failed_late", "source_untouched_between_builds", "out_inside_module_body", "companion_built_last", "tmpdir_on_another_file_system",
+          "imports_a_file_with_its_own_out"]
 
 TIERS = {
     "quick": {"runs": 640, "wall_cap": 200},
@@ -109,6 +112,8 @@ def generate(rng, tier, idx):
     w = {"src": src, "dir": "proj", "abs": rng.chance(25), "cwd": rng.weighted([("proj", 6), ("", 2), ("elsewhere", 2)]),
          "how": rng.weighted([("file", 7), ("dotslash", 1), ("walk_noargs", 1), ("walk_r", 1), ("walk_dir_arg", 1)]),
          "pre": rng.weighted([("none", 6), ("foreign", 2)]), "others": [], "steps": []}
+    # where the process is told to keep temporary files: not at all, inside the project's file system, or on another file system
+    w["tmpdir"] = rng.weighted([("unset", 5), ("same_fs", 2), ("other_fs", 2)])
     if name_cls == "symlink":
         # the file handed to the compiler is a symbolic link to a differently named file in another directory;
         # the artifact is named like the file that was built, and sits next to it
@@ -163,6 +168,12 @@ def generate(rng, tier, idx):
             st["k"] = "pre_error"
             st["outs"] = [{"conv": conv, "cls": cls, "expr": t.replace("@U@", u)}]
             st["u"] = u
+        if k in ("good", "bad") and not st.get("fault") and rng.chance(12):
+            # the source imports a library that has an out statement of its own: the library's artifact is the library's business,
+            # the source's artifact must still be the source's
+            dconv = rng.choice(["json", "yaml", "toml", "env"])
+            dcls, dt = rng.choice(GOOD[dconv])
+            st["dep_out"] = {"conv": dconv, "cls": dcls, "expr": dt.replace("@U@", "d" + u)}
         if k == "good" and not st.get("fault") and rng.chance(18) and conv in ENVDEP:
             # the value depends on the environment only: the next build finds the source untouched (not even rewritten) and the artifact
             # newer than the source, but must still produce the new bytes - same length or not
@@ -182,6 +193,8 @@ def generate(rng, tier, idx):
 
 def program(step):
     lines = [PRELUDE]
+    if step.get("dep_out"):
+        lines.append('let dep = import "./dep_with_out.ucg";\nlet dep_marker = dep.marker;\n')
     if step["k"] == "zero":
         lines.append('let a = "%s";\n' % step["u"])
     if step["k"] == "pre_error":
@@ -318,7 +331,24 @@ def execute(world, sb, res):
             res.probe("source_untouched_between_builds")
         outs = st["outs"]
         envtok = st.get("envtok")
-        step_env = {"UCGSIM_TOK": envtok} if envtok else None
+        step_env = {"UCGSIM_TOK": envtok} if envtok else {}
+        td = world.get("tmpdir", "unset")
+        if td == "same_fs":
+            sb.mkdir("tmp_same_fs")
+            step_env["TMPDIR"] = sb.p("tmp_same_fs")
+        elif td == "other_fs":
+            step_env["TMPDIR"] = OTHER_FS_TMP
+            res.probe("tmpdir_on_another_file_system")
+        dep = st.get("dep_out")
+        dep_rel = os.path.join(os.path.dirname(src_rel), "dep_with_out.ucg")
+        dep_art = dep_ref = None
+        if dep:
+            sb.write(dep_rel, PRELUDE + 'let marker = "dep";\nout %s %s;\n' % (dep["conv"], dep["expr"]))
+            dep_ref = ref.get(dep["conv"], dep["expr"])
+            dep_art = dep_rel[:-4] + "." + EXT[dep["conv"]]
+            res.probe("imports_a_file_with_its_own_out")
+        elif sb.exists(dep_rel):
+            sb.remove(dep_rel)
         refs = [ref.get(o["conv"], o["expr"], envtok if o["cls"] == "envdep" else None) for o in outs]
         if res.harness_error:
             return
@@ -398,6 +428,13 @@ def execute(world, sb, res):
             # informational lines (converters announce what they skip) are not an error block
             seg = [l for l in seg_text.split("\n")[1:] if l.strip() and not _INFO.match(l)]
             failed = len(seg) > 0
+        if dep:
+            # the imported library's artifact: complete or absent, and then out of the picture for the source under test
+            got_d = sb.read(dep_art) if sb.exists(dep_art) and os.path.isfile(sb.p(dep_art)) else None
+            if got_d is not None and dep_ref is not None and got_d != dep_ref:
+                res.violate("C14.bytes≠convert", dep["conv"], "the imported library's artifact %s holds %r but convert evaluates to %r\n" % (dep_art, got_d, dep_ref))
+            created = [p for p in created if p != dep_art]
+            changed = [p for p in changed if p != dep_art]
         touched = created + removed + changed
         res.history.append({"step": si, "kind": st["k"], "outs": [[o["conv"], o["cls"]] for o in outs], "fault": fault,
                             "status": inv.status, "signal": inv.signal, "timed_out": inv.timed_out,
@@ -446,6 +483,8 @@ def execute(world, sb, res):
                     got = bytes_of(fault_target)
                     if got != refs[0]:
                         res.violate("C14.silent-corruption", "efbig", "build exited 0 under a %d-byte file size limit but the artifact holds %r, convert gives %r\n%s" % (fsize, got, refs[0], ctx))
+                elif fault["kind"] == "enospc" and refs[0] == b"":
+                    pass   # nothing to write: a full disk cannot get in the way of zero bytes
                 else:
                     res.violate("C14.silent-corruption", fault["kind"], "build exited 0 although the artifact could not be written (%s)\n%s" % (fault["kind"], ctx))
             outcome = "fault-fired" if (fired and failed) else ("ok" if not failed else "failed")
@@ -576,6 +615,10 @@ def shrink_candidates(world):
             if f["kind"] == "efbig" and f.get("n") in ("all", "edges"):
                 for n_ in (0, 1, "mid", "last"):
                     yield dict(w, steps=w["steps"][:i] + [dict(st, fault={"kind": "efbig", "n": n_})] + w["steps"][i + 1:])
+        if st.get("dep_out"):
+            c3 = dict(st)
+            c3.pop("dep_out")
+            yield dict(w, steps=w["steps"][:i] + [c3] + w["steps"][i + 1:])
         if st.get("companion"):
             c2 = dict(st)
             c2.pop("companion")
